@@ -72,11 +72,16 @@ SELECT_ALPHA = [
     # SQL Server only
     ("top", ["top", 5]),
     ("limit", ["fetch_next", 4]),
+    # texts that begin and end with the quote character of their position
+    ("where", ["where", ["cmp", "=", f("t", "s"), raw("'x' y'")]]),
+    ("select", ["select", [["as", f("t", "a"), '"p"q"']]]),
+    ("select", ["select", [["as", f("t", "b"), "`p`q`"]]]),
 ]
 INSERT_ALPHA = [
     ("columns", ["columns", ["a", "b"]]),
     ("values", ["insert", [raw(1), raw(2)]]),
     ("values", ["insert", [raw(3), raw("x")]]),
+    ("values", ["insert", [raw(4), raw("'x' y'")]]),
     ("conflict", ["on_conflict", ["a"]]),
     ("conflict", ["do_update", "b", raw(9)]),
     ("conflict", ["do_nothing"]),
@@ -99,6 +104,7 @@ UPDATE_ALPHA = [
     ("set", ["set", "b", ["arith", "+", f("t", "b"), raw(2)]]),
     ("where", ["where", ["cmp", "=", f("t", "id"), raw(3)]]),
     ("where", ["where", ["cmp", ">", f("t", "a"), raw(0)]]),
+    ("where", ["where", ["cmp", "=", f("t", "s"), raw("'x' y'")]]),
     ("from", ["from", U]),
     ("join", ["join", "inner", V, ["on", ["cmp", "=", f("t", "id"), f("v", "id")]]]),
     ("order", ["orderby", [f("t", "a")], "asc"]),
@@ -501,6 +507,8 @@ def run_case(case):
         return res
     if ("top" in fams or "fetch_next" in names) and d != "mssql":
         return res
+    if d == "oracle" and any('"p"q"' in repr(alpha[i][1]) for i in comb):
+        return res  # an Oracle identifier cannot contain a double quote at all (no escape exists): not expressible
     if kind == "insert_select" and "conflict" in fams:
         calls_ = [alpha[i][1][0] for i in comb if alpha[i][0] == "conflict"]
         if calls_[0] != "on_conflict" or len(calls_) != 2:
